@@ -67,16 +67,18 @@ Lemma slash_shape cfg s r s1 :
                 (c_svc rc, r_prov q) b2).
 Proof.
   unfold slash. intros H. inv_ok H.
-  rename a into q, a0 into rc, a1 into b, a2 into sb.
+  rename a into q, a0 into rc, a1 into b, a2 into sb, a3 into b2.
   apply burn_some in Ha2. destruct Ha2 as (H0 & Hle & ->). b2p.
   set (amt := mul_trunc (b_deposit b) (p_slash cfg)) in *.
   set (b1 := setb_deposit b (b_deposit b - amt)) in *.
-  destruct (b_avail b1) eqn:Eav.
-  - inv_ok H. subst s1.
-    match goal with |- context [put_binding _ _ ?bb] => exists q, rc, b, amt, bb end.
-    repeat split; try assumption; try reflexivity.
-    all: destruct (b_deposit b1 <? a); reflexivity.
-  - inv_ok H. subst s1. exists q, rc, b, amt, b1. repeat split; try assumption; reflexivity.
+  subst s1. exists q, rc, b, amt, b2.
+  assert (Hb2 : b_deposit b2 = b_deposit b - amt /\ b_owner b2 = b_owner b /\ b_raw b2 = b_raw b /\ b_qos b2 = b_qos b).
+  { destruct (b_avail b1) eqn:Eav.
+    - inv_ok Ha3. subst b2.
+      match goal with |- context [if ?c then _ else _] => destruct c end; repeat split.
+    - inv_ok Ha3. subst b2. repeat split. }
+  destruct Hb2 as (? & ? & ? & ?).
+  repeat split; try assumption; try reflexivity.
 Qed.
 
 Lemma refund_shape s r cons fee s1 :
@@ -138,4 +140,54 @@ Lemma msum_fee_deactivate s r q :
 Proof.
   intros G. rewrite deactivate_reqs, G, msum_set. unfold fget. rewrite G.
   unfold fee_active at 3. cbn [r_active setr_active]. lia.
+Qed.
+
+Lemma add_earned_shape cfg s r prov fee s1 :
+  add_earned_fee cfg s r prov fee = Ok s1 ->
+  exists o s0,
+    let tax := mul_trunc fee (p_tax cfg) in
+    transfer Escrow FeeColl tax s = Some s0 /\ tax <= fee
+    /\ get prov (owner_of s) = Some o
+    /\ s1 = emit (EvEarn r prov (fee - tax)) (emit (EvTax r tax)
+              (set_own_earned (set_earned (set_bank s (bank s0)) (add_to prov (fee - tax) (earned s)))
+                 (add_to o (fee - tax) (own_earned s)))).
+Proof.
+  unfold add_earned_fee. intros H. inv_ok H. b2p.
+  pose proof (transfer_frame _ _ _ _ _ Ha) as Hf.
+  sproj. rewrite Hf in H. sproj.
+  destruct (get prov (owner_of s)) as [o|] eqn:Eo; inv_ok H.
+  exists o, a. cbv zeta. repeat split; try assumption. now subst s1.
+Qed.
+
+(* what the tail of h_respond does to the fields the money invariants read *)
+Lemma complete_batch_frame s c rc :
+  let s1 := fst (complete_batch s c rc) in
+  reqs s1 = reqs s /\ resps s1 = resps s /\ earned s1 = earned s /\ own_earned s1 = own_earned s
+  /\ bank s1 = bank s /\ supply s1 = supply s /\ ctxs s1 = ctxs s /\ binds s1 = binds s
+  /\ expq s1 = expq s /\ expq_h s1 = expq_h s /\ newq s1 = newq s /\ newq_h s1 = newq_h s
+  /\ vols s1 = vols s /\ owner_of s1 = owner_of s /\ pricing s1 = pricing s
+  /\ height s1 = height s /\ time s1 = time s.
+Proof.
+  unfold complete_batch, callback. cbn [fst].
+  destruct (c_mod rc =? 0); [repeat split|].
+  destruct (get c (ctxs s)); repeat split.
+Qed.
+
+Lemma resp_tail_money s1 r who rc0 code out c rc :
+  let s' := resp_finish (resp_mid s1 r who rc0 code out) c rc in
+  reqs s' = reqs (deactivate s1 r) /\ earned s' = earned s1 /\ own_earned s' = own_earned s1
+  /\ bank s' = bank s1 /\ supply s' = supply s1 /\ binds s' = binds s1.
+Proof.
+  cbv zeta. unfold resp_finish.
+  set (sm := resp_mid s1 r who rc0 code out).
+  assert (Hm : reqs sm = reqs (deactivate s1 r) /\ earned sm = earned s1 /\ own_earned sm = own_earned s1
+               /\ bank sm = bank s1 /\ supply sm = supply s1 /\ binds sm = binds s1).
+  { unfold sm, resp_mid. sproj. unfold deactivate. sproj.
+    destruct (get r (reqs s1)); sproj; repeat split. }
+  destruct Hm as (M1 & M2 & M3 & M4 & M5 & M6).
+  destruct (c_bresp (setc_bresp rc (c_bresp rc + 1)) =? c_breq (setc_bresp rc (c_bresp rc + 1))).
+  - pose proof (complete_batch_frame sm c (setc_bresp rc (c_bresp rc + 1))) as F. cbv zeta in F.
+    destruct F as (F1 & _ & F3 & F4 & F5 & F6 & _ & F8 & _). sproj.
+    rewrite F1, F3, F4, F5, F6, F8. repeat split; assumption.
+  - sproj. repeat split; assumption.
 Qed.
